@@ -19,13 +19,17 @@ class PieceSys(HSystem):
     events: ('feed', k) the next k whole blocks with padding=False (k=0: an empty piece);
             ('close',) the rest with padding=True."""
 
-    def __init__(self, a, nblocks, tail, salt=None):
+    def __init__(self, a, nblocks, tail, salt=None, abandoned=None):
         self.salt = salt
+        self.abandoned = abandoned        # salt of a message that was started on the same object and never finished
         self.a, self.nb, self.tail = a, nblocks, tail
         self.bl = HF.blocklen(a)
         self.M = expander(nblocks * self.bl + tail, 1 + nblocks)
 
     def init(self, o):
+        if self.abandoned is not None:
+            o.initstate(salt=self.abandoned)
+            o.update(expander(HF.blocklen(self.a), 77), padding=False)
         if self.salt is None:
             o.initstate()
         else:
@@ -103,6 +107,8 @@ def systems(tier):
         salt = int.from_bytes(expander(4 * w // 8, 21), 'big')
         for nb, t in ((2, 1), (3, 0)):
             d['%s/salted/%d+%d' % (a, nb, t)] = PieceSys(a, nb, t, salt=salt)
+        d['%s/salted-after-abandoned-message/2+1' % a] = PieceSys(a, 2, 1, salt=salt, abandoned=salt >> 8)
+        d['%s/unsalted-after-abandoned-salted-message/1+1' % a] = PieceSys(a, 1, 1, salt=0, abandoned=salt)
     return d
 
 
